@@ -1,14 +1,14 @@
 \* C16 generator, quick tier.  Families (FeatVars.tla section 4), "n/size": n cases taken by a seeded stride
 \* through the family's index space (exhaustive when n = size):
-\*   E1 2000/8190   1 axis, 1-2 rules, 1 condition set, 18 ranges (10 closed over {-1,-1/2,0,1/2,1},
+\*   E1 1500/8190   1 axis, 1-2 rules, 1 condition set, 18 ranges (10 closed over {-1,-1/2,0,1/2,1},
 \*                  4 without minimum, 4 without maximum) x 5 maps over {a->a1, a->a2, b->b1}
-\*   E2 800/27000   1 axis, 3 rules, 10 closed ranges x 3 single-glyph maps
-\*   E3 800/27390   1 axis, 1-2 rules, 2 condition sets (55 pairs of closed ranges) x 3 maps
-\*   E4 600/5700    2 axes, 1-2 rules, boxes over the coarse grid {-1,0,1} (3+3+9 = 15) x 5 maps
-\*   E5 300/91125   2 axes, 3 rules, coarse boxes (15) x 3 maps
-\*   R1 1000, R2 400  pseudo-random (Lehmer generator seeded by FV_SEED): 1 / 2 axes, 1-3 rules,
+\*   E2 600/27000   1 axis, 3 rules, 10 closed ranges x 3 single-glyph maps
+\*   E3 600/27390   1 axis, 1-2 rules, 2 condition sets (55 pairs of closed ranges) x 3 maps
+\*   E4 450/5700    2 axes, 1-2 rules, boxes over the coarse grid {-1,0,1} (3+3+9 = 15) x 5 maps
+\*   E5 250/91125   2 axes, 3 rules, coarse boxes (15) x 3 maps
+\*   R1 800, R2 300   pseudo-random (Lehmer generator seeded by FV_SEED): 1 / 2 axes, 1-3 rules,
 \*                  1-2 condition sets, 18 ranges per axis, 5 maps
-\*   M  6           3 hand-made (64, 65, 66 rules; the last one nested in the first) + 3 random:
+\*   M  5           3 hand-made (64, 65, 66 rules; the last one nested in the first) + 2 random:
 \*                  62..65 filler rules + 2-5 random rules (merged rule list 63..67 entries)
 \* Sample points per axis: 4 cell midpoints + every breakpoint -1 / +0 / +1 F2Dot14 quantum (17 values);
 \* 2 axes: the full 17 x 17 product.  env: FV_SEED (0..9999).  Run with -continue -deadlock.
